@@ -232,3 +232,69 @@ func VerifH_C05_ApiFaults() {
 	}
 	vObserve("failed", opErr != nil)
 }
+
+// redirect target of (*client.Document).GenerateDocID for the C13 job below: the identifier as a function of the content
+// (an injective table over the two contents the harness uses; canonical CBOR + SHA-256 + UUIDv5 natively)
+func sDocIDOfContent(doc *client.Document) (client.DocID, error) {
+	v, err := doc.Get(sFields[0])
+	if err != nil {
+		return client.DocID{}, err
+	}
+	if s, _ := v.(string); s == "a" {
+		return client.NewDocIDFromString(uDocIDs[0])
+	}
+	return client.NewDocIDFromString(uDocIDs[1])
+}
+
+// VerifH_C13_CreateVerifiesDocID — C13: a document is stored under the identifier derived from its content. A document
+// that claims an identifier (the `_docID` key of the map route) is created iff that identifier is the one its content
+// gives; otherwise Create fails and stores nothing.
+func VerifH_C13_CreateVerifiesDocID() {
+	e := vNewEnv(vFieldLWW, false)
+	_ = e
+	st := vNewStore()
+	d := &DB{rootstore: st, events: &sBus{}, signingDisabled: true}
+	def := sDefinition(false)
+	c := &collection{db: d, def: def}
+	bg := context.Background()
+	setupC, err := d.NewTxn(bg, false)
+	vBound(err == nil, "setup txn")
+	setup := setupC.(*Txn)
+	sctx := InitContext(bg, setup)
+	vBound(id.SetShortCollectionID(sctx, vColID) == nil, "short collection id")
+	for _, f := range sFields {
+		vBound(id.SetShortFieldID(sctx, 1, f) == nil, "short field id")
+	}
+	vBound(setup.Commit(sctx) == nil, "setup commit")
+	before := sStoreSnapshot(st)
+
+	contents := []string{"a", "b"}
+	content, claimed := vChoose("content", 2), vChoose("claimed-id-of", 2)
+	var doc *client.Document
+	if vSymbolic() {
+		docID, perr := client.NewDocIDFromString(uDocIDs[claimed])
+		vBound(perr == nil, "doc id")
+		doc, err = client.NewDocWithID(docID, def)
+		vBound(err == nil, "doc")
+		vBound(doc.Set(sFields[0], contents[content]) == nil, "set")
+	} else {
+		other, oerr := client.NewDocFromMap(map[string]any{sFields[0]: contents[claimed]}, def)
+		vBound(oerr == nil, "doc")
+		doc, err = client.NewDocFromMap(map[string]any{"_docID": other.ID().String(), sFields[0]: contents[content]}, def)
+		vBound(err == nil, "doc")
+	}
+	cerr := c.Create(bg, doc)
+	vCover("created")
+	if content == claimed {
+		vAssert(cerr == nil, "document-with-its-own-identifier-is-created")
+	} else {
+		vAssert(cerr != nil, "identifier-not-derived-from-the-content-is-rejected")
+		after := sStoreSnapshot(st)
+		same := len(before) == len(after)
+		for i := 0; same && i < len(before); i++ {
+			same = before[i] == after[i]
+		}
+		vAssert(same, "identifier-not-derived-from-the-content-is-rejected")
+	}
+	vObserve("created", cerr == nil)
+}
